@@ -14,6 +14,7 @@ import (
 	"github.com/quickfixgo/quickfix"
 	"github.com/quickfixgo/quickfix/config"
 	filestore "github.com/quickfixgo/quickfix/store/file"
+	sqlstore "github.com/quickfixgo/quickfix/store/sql"
 
 	"verif/internal/fixscan"
 )
@@ -49,6 +50,9 @@ type Config struct {
 	SessionWindow     bool // a daily session window of +-6 h around the current time is configured (event "window-closes")
 	SenderSub         string
 	TargetSub         string
+	SenderLoc         string // SenderLocationID / TargetLocationID of the session
+	TargetLoc         string
+	SQLTemplate       string // with FileDir: use the SQL store on a private copy of this sqlite database file
 }
 
 func (c Config) String() string {
@@ -64,7 +68,7 @@ func (c Config) String() string {
 		b bool
 		n string
 	}{{c.ResetOnLogon, "RLogon"}, {c.ResetOnLogout, "RLogout"}, {c.ResetOnDisconnect, "RDisc"}, {c.RefreshOnLogon, "Refresh"},
-		{c.ResetSeqTime, "ResetSeqTime"}, {c.HBOverride, "HBOverride"}, {c.NoPersist, "nopersist"}, {c.NoCheckLatency, "nolatency"}, {c.FileDir != "", "file"}} {
+		{c.ResetSeqTime, "ResetSeqTime"}, {c.HBOverride, "HBOverride"}, {c.NoPersist, "nopersist"}, {c.NoCheckLatency, "nolatency"}, {c.FileDir != "" && c.SQLTemplate == "", "file"}, {c.SQLTemplate != "", "sql"}, {c.SenderSub+c.TargetSub+c.SenderLoc+c.TargetLoc != "", "sub=" + c.SenderSub + "/" + c.TargetSub + ",loc=" + c.SenderLoc + "/" + c.TargetLoc}} {
 		if f.b {
 			s += "/" + f.n
 		}
@@ -335,7 +339,7 @@ func (w *World) boot(first bool) error {
 		our, peer = PeerComp, OurComp
 	}
 	id := quickfix.SessionID{BeginString: cfg.BeginString, SenderCompID: our, TargetCompID: peer,
-		SenderSubID: cfg.SenderSub, TargetSubID: cfg.TargetSub}
+		SenderSubID: cfg.SenderSub, TargetSubID: cfg.TargetSub, SenderLocationID: cfg.SenderLoc, TargetLocationID: cfg.TargetLoc}
 	w.ID = id
 	ss := quickfix.NewSessionSettings()
 	ss.Set(config.BeginString, cfg.BeginString)
@@ -346,6 +350,12 @@ func (w *World) boot(first bool) error {
 	}
 	if cfg.TargetSub != "" {
 		ss.Set(config.TargetSubID, cfg.TargetSub)
+	}
+	if cfg.SenderLoc != "" {
+		ss.Set(config.SenderLocationID, cfg.SenderLoc)
+	}
+	if cfg.TargetLoc != "" {
+		ss.Set(config.TargetLocationID, cfg.TargetLoc)
 	}
 	hb := cfg.HeartBtInt
 	if hb == 0 {
@@ -416,10 +426,34 @@ func (w *World) boot(first bool) error {
 		if cfg.TargetSub != "" {
 			ss2.Set(config.TargetSubID, cfg.TargetSub)
 		}
+		if cfg.SenderLoc != "" {
+			ss2.Set(config.SenderLocationID, cfg.SenderLoc)
+		}
+		if cfg.TargetLoc != "" {
+			ss2.Set(config.TargetLocationID, cfg.TargetLoc)
+		}
+		if cfg.SQLTemplate != "" {
+			db := w.dir + "/s.db"
+			if first {
+				b, err := os.ReadFile(cfg.SQLTemplate)
+				if err != nil {
+					return err
+				}
+				if err := os.WriteFile(db, b, 0o644); err != nil {
+					return err
+				}
+			}
+			gs.GlobalSettings().Set(config.SQLStoreDriver, "sqlite3")
+			gs.GlobalSettings().Set(config.SQLStoreDataSourceName, db)
+		}
 		if _, err := gs.AddSession(ss2); err != nil {
 			return err
 		}
-		sf = filestore.NewStoreFactory(gs)
+		if cfg.SQLTemplate != "" {
+			sf = sqlstore.NewStoreFactory(gs)
+		} else {
+			sf = filestore.NewStoreFactory(gs)
+		}
 	} else {
 		sf = quickfix.NewMemoryStoreFactory()
 	}
